@@ -454,7 +454,7 @@ func grammarBlock(src []byte, b *cm.Block, parent *cm.Block) string {
 				return "C05-html-block-child"
 			}
 			ck := ci.Kind()
-			if ck != cm.RawHTMLKind && ck != cm.SoftLineBreakKind && ck != cm.IndentKind && ck != cm.TextKind {
+			if ck != cm.RawHTMLKind && ck != cm.IndentKind {
 				return fmt.Sprintf("C05-html-child I%d", int(ck))
 			}
 		}
